@@ -142,6 +142,27 @@ fn reused<U: User, E: Engine<U>>(q: L<U, E>) -> Goal<U, E> {
     ])
 }
 
+// ---- 7b. an arm that does not bind a name sees the enclosing variable of that name, also when a
+// sibling arm binds the same name as a pattern variable
+fn outer_in_arm<U: User, E: Engine<U>>(q: L<U, E>) -> Goal<U, E> {
+    proto_vulcan!(|x| {
+        x == 5,
+        match [1, 2] {
+            [x, 7] => q == x,
+            [_, y] => q == [x, y],
+        }
+    })
+}
+fn outer_in_arm_twin<U: User, E: Engine<U>>(q: L<U, E>) -> Goal<U, E> {
+    proto_vulcan!(|x| {
+        x == 5,
+        match [1, 2] {
+            [z, 7] => q == z,
+            [_, y] => q == [x, y],
+        }
+    })
+}
+
 // ---- 8. recursion with an accumulator and a shadowing fresh variable inside the unfolding
 fn rev_acc<U: User, E: Engine<U>>(l: L<U, E>, acc: L<U, E>, out: L<U, E>) -> Goal<U, E> {
     proto_vulcan_closure!(match l {
@@ -250,6 +271,12 @@ pub fn corpus() -> Vec<Entry> {
             },
         },
         Entry { name: "reused", build: |q| reused(q), twin: None, expected: || vec![i(2)] },
+        Entry {
+            name: "outer-name-in-sibling-arm",
+            build: |q| outer_in_arm(q),
+            twin: Some(|q| outer_in_arm_twin(q)),
+            expected: || vec![T::list(vec![i(5), i(2)])],
+        },
         Entry {
             name: "rev-acc",
             build: |q| rev_acc(lterm!([1, 2]), lterm!([]), q),
